@@ -6,6 +6,15 @@ import TinkVerif.Gen.SliceFacts
 function, each place where a `[]byte` parameter (or a local re-slice of it) is appended to, stored
 into, passed as the destination of a stdlib writer, stored into a struct without `Clone`
 (retention), or returned; and each method returning a `[]byte` field of its receiver as is.
+Taint follows the slice-preserving operations: slicing (incl. `p[:n:n]`), `bytes.Trim*/TrimLeft/TrimRight/
+TrimPrefix/TrimSuffix/TrimSpace/TrimFunc`, `bytes.Fields/Split*/Cut*` (and ranging over / indexing their
+results), `slices.Clip/Grow`, `bytes.NewBuffer(p)` / `bytes.NewReader(p)` (holders; a `Write` on the buffer is
+an append into `p`), `append(p[:k], …)` (a view when the result fits; `append(p[:0:0], …)` and
+`append(p[:n:n], …)` are copies), handing a (pointer to a) parameter slice to `Store/Swap/Put` of a container.
+`return-internal`: a function returns `x.Bytes()` of a `bytes.Buffer`, or a (re)slice of a buffer / array /
+`*[]byte`, that was obtained from a package-level variable (`pool.Get()`, a global) or is a receiver field —
+the caller's result then shares memory with something the library keeps and will write again.
+The current tree has no `return-internal` fact and no parameter reaching a struct through a trimming function.
 
 Each fact on the current tree is classified below, by hand, into `allowed` with a reason.  The theorem
 says the regenerated fact set is within that classification; a new `append(data, 0)`, an accessor
